@@ -11,6 +11,7 @@ func init() {
 	vHarnesses["VH_C19_pos"] = VH_C19_pos
 	vHarnesses["VH_C19_fmt"] = VH_C19_fmt
 	vHarnesses["VH_C19_longline"] = VH_C19_longline
+	vHarnesses["VH_C19_cross"] = VH_C19_cross
 }
 
 // vLineCol is the oracle's definition of "line and column of an offset":
@@ -137,4 +138,91 @@ func VH_C19_longline() {
 	}
 	vAssert(caret <= len(quoted), "caret-within-or-just-after-the-quoted-line"+class)
 	vAssert(strings.HasPrefix(string(input), strings.TrimSuffix(quoted, "...")), "quoted-line-is-a-prefix-of-the-line")
+}
+
+var vC19BadSources = []string{"", "(1 + 2", "'abc", "\n\n(", "[1, 2", "+"}
+
+// vC19LangOnly: a syntax-error message for an ASCII input is written only in
+// the configured language.
+func vC19LangOnly(msg string, lang int, who string) {
+	if k := strings.Index(msg, "): "); k >= 0 && k < 24 {
+		msg = msg[k+3:]
+	}
+	out := strings.Split(msg, "\n")
+	last := out[len(out)-1]
+	nonASCII := false
+	for i := 0; i < len(msg); i++ {
+		if msg[i] >= 0x80 {
+			nonASCII = true
+		}
+	}
+	switch lang {
+	case ParseErrorLanguageChinese:
+		vAssert(out[0] == "语法错误", who+"header-in-configured-language")
+		vAssert(strings.HasPrefix(last, "  位置 "), who+"position-line-in-configured-language")
+		vAssert(!strings.Contains(msg, "Syntax Error") && !strings.Contains(msg, "  Pos "), who+"no-second-language")
+	case ParseErrorLanguageEnglish:
+		vAssert(out[0] == "Syntax Error", who+"header-in-configured-language")
+		vAssert(strings.HasPrefix(last, "  Pos "), who+"position-line-in-configured-language")
+		vAssert(!nonASCII, who+"no-second-language")
+	default:
+		vAssert(out[0] == "语法错误 Syntax Error", who+"header-in-configured-language")
+		vAssert(strings.HasPrefix(last, "  Pos ") && len(out) >= 2 && strings.HasPrefix(out[len(out)-2], "  位置 "), who+"bilingual-has-both-lines")
+	}
+}
+
+// vC19Op makes vm meet the syntax error in src in one of three ways: as the
+// program, as an expression compiled on demand in a sub-VM, or as the
+// default-sides expression compiled when a bare 'd' is rolled.
+func vC19Op(vm *Context, kind int, src string) error {
+	switch kind {
+	case 0:
+		return vm.Run(src)
+	case 1:
+		_, err := vm.RunExpr(src, false)
+		return err
+	default:
+		vm.Config.DefaultDiceSideExpr = src
+		return vm.Run("d")
+	}
+}
+
+//vh:prop=C19 tiers=quick,thorough sigkeys=la,lb,op2,op3,s1,s2 budget_s=1500 quick:P.nsrc=4 thorough:P.nsrc=6 bounds="two VMs with different ParseErrorLanguage settings used in turn (A, B, A), each meeting one of nsrc (4 quick, 6 thorough) ill-formed ASCII sources (incl. the empty text) as the program, as an on-demand expression in a sub-VM (RunExpr) or as the default-sides expression: every syntax-error message is in the language of the VM that produced it only, and equals the message the same VM configuration produces first thing in the path's history for the same source"
+func VH_C19_cross() {
+	nsrc := vParam("nsrc", 4)
+	la := vChoice("la", 3)
+	lb := (la + 1 + vChoice("lb", 2)) % 3
+	op2, op3 := vChoice("op2", 3), vChoice("op3", 3)
+	s1 := vC19BadSources[vChoice("s1", nsrc)]
+	s2 := vC19BadSources[vChoice("s2", nsrc)]
+	a, b := NewVM(), NewVM()
+	a.Config.ParseErrorLanguage = la
+	b.Config.ParseErrorLanguage = lb
+	// a syntax error reads "<line>:<col> (<offset>): <message>"
+	isSyntax := func(err error) bool {
+		return err != nil && (strings.Contains(err.Error(), "语法错误") || strings.Contains(err.Error(), "Syntax Error"))
+	}
+	e1 := a.Run(s1)
+	vAssert(e1 != nil, "ill-formed-source-is-rejected")
+	if isSyntax(e1) {
+		vC19LangOnly(e1.Error(), la, "first/")
+	}
+	e2 := vC19Op(b, op2, s2)
+	vReach("second")
+	if isSyntax(e2) {
+		vC19LangOnly(e2.Error(), lb, "other-vm/")
+	}
+	if e2 != nil {
+		vObserve("e2", e2.Error())
+	}
+	e3 := vC19Op(a, op3, s1)
+	if isSyntax(e3) {
+		vC19LangOnly(e3.Error(), la, "back-on-first-vm/")
+		if op3 == 0 && e1 != nil {
+			vAssert(e3.Error() == e1.Error(), "same-source-same-message-on-the-same-vm")
+		}
+	}
+	if e3 != nil {
+		vObserve("e3", e3.Error())
+	}
 }
